@@ -212,7 +212,7 @@ func NewSingleColumnQueryExpression(source Node) *SingleColumnQueryExpression {
 func (e *SingleColumnQueryExpression) Evaluate(ctx ExecutionContext) (octosql.Value, error) {
 	// TODO: Handle retractions.
 	var values []octosql.Value
-	e.source.Run(
+	if err := e.source.Run(
 		ctx,
 		func(ctx ProduceContext, record Record) error {
 			if record.Retraction {
@@ -222,7 +222,9 @@ func (e *SingleColumnQueryExpression) Evaluate(ctx ExecutionContext) (octosql.Va
 			return nil
 		},
 		func(ctx ProduceContext, msg MetadataMessage) error { return nil },
-	)
+	); err != nil {
+		return octosql.ZeroValue, fmt.Errorf("couldn't run query expression source: %w", err)
+	}
 	return octosql.NewList(values), nil
 }
 
@@ -239,7 +241,7 @@ func NewMultiColumnQueryExpression(source Node) *MultiColumnQueryExpression {
 func (e *MultiColumnQueryExpression) Evaluate(ctx ExecutionContext) (octosql.Value, error) {
 	// TODO: Handle retractions.
 	var values []octosql.Value
-	e.source.Run(
+	if err := e.source.Run(
 		ctx,
 		func(ctx ProduceContext, record Record) error {
 			if record.Retraction {
@@ -249,7 +251,9 @@ func (e *MultiColumnQueryExpression) Evaluate(ctx ExecutionContext) (octosql.Val
 			return nil
 		},
 		func(ctx ProduceContext, msg MetadataMessage) error { return nil },
-	)
+	); err != nil {
+		return octosql.ZeroValue, fmt.Errorf("couldn't run query expression source: %w", err)
+	}
 	return octosql.NewList(values), nil
 }
 
